@@ -114,10 +114,16 @@ var shapeValues = map[string][]string{
 	"nullable": {"~"},
 }
 
+// what an enclosing element needs so that its own validation does not stop the document before the odd shape matters
+var shapeExtras = map[string]string{
+	"oauth2": "client_id: i, client_secret: s, token_url: 'https://idp.example/token', ",
+}
+
 // wrapInner wraps `inner` (flow-mapping content, e.g. "fields: [~]") into the enclosing fields of path, innermost
 // first; base gives the other fields an enclosing element needs to be valid.
 func wrapInner(path []shapeStep, inner string) string {
 	for i := len(path) - 1; i >= 0; i-- {
+		inner = shapeExtras[path[i].name] + inner
 		switch path[i].wrap {
 		case 0:
 			inner = fmt.Sprintf("%s: {%s}", path[i].name, inner)
@@ -257,12 +263,12 @@ func (x *runner) shapesStream(r *vh.Rand) {
 			// innermost first, adding what each enclosing element needs
 			for i := len(tg.path) - 1; i >= 0; i-- {
 				st := tg.path[i]
-				extra := ""
+				extra := shapeExtras[st.name]
 				switch {
 				case i == 0 && st.name == "receivers":
-					extra = "name: b, "
+					extra += "name: b, "
 				case i == 0 && (st.name == "time_intervals" || st.name == "mute_time_intervals"):
-					extra = "name: x, "
+					extra += "name: x, "
 				}
 				switch st.wrap {
 				case 0:
